@@ -520,7 +520,9 @@ fn structural(cx: &mut Cx, rng: &mut R, b: &[u8], n_rand: usize) {
             q[0][i].val.extend(pd::rb(rng, 1, 4));
             let mb = ser_raw(&q);
             let r = on_bytes(cx, &mb, "mut.count_trailing");
-            cx.out.s("count_value_trailing_bytes_decode_equal", matches!(&r, Some(p) if *p == p0 && serialize(p) == canon), || hex(&mb));
+            // accepted today (trailing bytes of the value are ignored); if accepted it must be the same PSET with the
+            // canonical re-encoding — a decoder that refuses them is not in violation
+            cx.out.s("count_value_trailing_bytes_decode_equal", match &r { None => true, Some(p) => *p == p0 && serialize(p) == canon }, || hex(&mb));
         }
         if rng.gen_bool(0.3) {
             let mut q = maps.clone();
@@ -798,7 +800,12 @@ fn targeted_case(cx: &mut Cx, rng: &mut R, c: &Case) -> (Vec<u8>, bool) {
         cx.out.s("map_and_pset_decoders_agree", map_ok == r.is_some(), || format!("{} {}", c.label, hex(&pb)));
     }
     if let Some(e) = c.expect {
-        cx.out.s("targeted_expectation", r.is_some() == e && (touches_counts || map_ok == e), || format!("{} expected accept={} {}", c.label, e, hex(&pb)));
+        let holds = r.is_some() == e && (touches_counts || map_ok == e);
+        let det = || format!("{} expected accept={} {}", c.label, e, hex(&pb));
+        // what the property NAMES must be rejected (duplicate keys, inconsistent counts, invalid hash preimages) is a
+        // direct check; the rest of the table pins today's accept/reject decisions of the decoder (tied to the model by K)
+        let mandated = !e && (c.label.starts_with("preimage") || c.label.starts_with("count") || c.label.starts_with("scalar.order") || c.label.contains("dup"));
+        if mandated { cx.out.s("targeted_expectation", holds, det); } else { cx.out.pin("targeted_expectation_pinned", holds, det); }
     }
     cx.out.count(&format!("tgt.{}.{}", c.label, if r.is_some() { "ok" } else { "err" }));
     (mb, r.is_some())
@@ -1309,7 +1316,7 @@ fn targeted(cx: &mut Cx, rng: &mut R, first_only: bool) {
         let re = parse_raw(&cat(&[b"pset\xff", &serialize(&i)])).unwrap_or_default();
         re.len() == 1 && re[0].iter().any(|p| p.ty == 0x13 && p.val.len() == 64)
     });
-    cx.out.s("schnorr65_default_reencoded_as_64", ok == Some(true), || sig65_map.as_ref().map(|m| hex(m)).unwrap_or_default());
+    cx.out.pin("schnorr65_default_reencoded_as_64", ok == Some(true), || sig65_map.as_ref().map(|m| hex(m)).unwrap_or_default());
 }
 
 // ------------------------------------------------------------------ tap trees
